@@ -13,6 +13,7 @@ from ..impl import GMMMachine, GMMStats, KMeansMachine, em, hexlist, make_gmm
 
 D2 = "D2-map-variance-unsquared-prior-mean"
 D14 = "D14-relative-loglik-stopping-rule-depends-on-feature-units"
+D15 = "D15-count-floor-makes-a-starved-components-mean-origin-dependent"
 linear_scoring = em.linear_scoring
 SWITCHES = list(itertools.product([True, False], repeat=3))
 
@@ -37,6 +38,23 @@ def run(chk):
     r = gen.rng(chk.seed, "C15")
     n_cases = 24 if chk.tier == "quick" else 1200
     eps = float(np.finfo(float).eps)
+    # ---- a numerically starved component (known finding D15), exhibited on every run: two components, the second one 1e3 sigma away
+    #      from every sample; under a pure shift of the features the first component follows, the starved one does not
+    gd = gen.nprng(r)
+    Xd = gd.normal(size=(8, 2))
+    mud, vard, wd = np.array([[0.0, 0.0], [1e3, 1e3]]), np.ones((2, 2)), np.array([0.5, 0.5])
+    bd = np.array([5.0, -7.0])
+    cfgd = dict(w=wd, mu=mud, var=vard, thr=None, sw=(True, True, True), eps=eps, cap=1, cthr=None)
+    md1, _ = gt.build_machine(cfgd)
+    md2, _ = gt.build_machine(dict(cfgd, mu=mud + bd))
+    gt.run_fit(md1, Xd)
+    gt.run_fit(md2, Xd + bd)
+    chk.count(1, key=("starved-component-shift",))
+    if not close(np.asarray(md2.means)[0], np.asarray(md1.means)[0] + bd, rtol=1e-9):
+        chk.fail("ML training is not shift-equivariant even for the component that has all the evidence", {"X": hexlist(Xd), "b": hexlist(bd), "mu": hexlist(mud)})
+    elif not close(np.asarray(md2.means)[1], np.asarray(md1.means)[1] + bd, rtol=1e-9):
+        chk.fail("ML training with a numerically starved component (count below the update threshold) is not shift-equivariant: its mean becomes sum_px / threshold",
+                 {"X": hexlist(Xd), "b": hexlist(bd), "mu": hexlist(mud), "means": hexlist(md1.means), "means_shifted_run": hexlist(md2.means)}, sig=D15)
     for i in range(n_cases):
         w, mu, var, s, X = gt.gen_training(r, N=r.choice([9, 14]))
         C, D = mu.shape
@@ -108,8 +126,22 @@ def run(chk):
                     else:
                         chk.fail("MAP means/weights after one iteration are not equivariant under feature rescaling", dict(ctx, switches=list(sw), trainer=trainer))
                 else:
-                    chk.fail("%s training (switches %s, %d iterations) is not equivariant under feature rescaling" % (trainer.upper(), sw, K),
-                             dict(ctx, switches=list(sw), trainer=trainer, iterations=K))
+                    # explained by the count floor?  A component whose total responsibility is below mean_var_update_threshold (numerically starved)
+                    # gets mean = sum_px / threshold ~ 0 whatever the origin of the features: step both runs and look at the counts
+                    starved = False
+                    if trainer == "ml":
+                        q1, _ = gt.build_machine(dict(cfg, cap=1))
+                        q2, _ = gt.build_machine(dict(cfgt, cap=1))
+                        for _k in range(K):
+                            starved = starved or bool(np.any(np.asarray(q1.acc_stats(X).n) < eps)) or bool(np.any(np.asarray(q2.acc_stats(Xt).n) < eps))
+                            gt.run_fit(q1, X)
+                            gt.run_fit(q2, Xt)
+                    if starved:
+                        chk.fail("ML training with a numerically starved component (count below the update threshold) is not shift-equivariant: its mean becomes sum_px / threshold",
+                                 dict(ctx, switches=list(sw), trainer=trainer, iterations=K), sig=D15)
+                    else:
+                        chk.fail("%s training (switches %s, %d iterations) is not equivariant under feature rescaling" % (trainer.upper(), sw, K),
+                                 dict(ctx, switches=list(sw), trainer=trainer, iterations=K))
         # ---- threshold-stopped ML training: the stopping iteration must not depend on the units either
         if C >= 2 and i % 2 == 0:
             swf = (True, True, True)
